@@ -25,6 +25,7 @@ type GenOpts struct {
 	Handles  bool     // handle operations
 	Unclean  bool     // unclean spellings of path operands
 	Relative bool     // relative paths and chdir
+	Perm     bool     // acting users, umasks, arbitrary modes and owners (C03)
 }
 
 var flagSets = [][]string{
@@ -172,6 +173,10 @@ func (g *gen) next() Call {
 		ops = append(ops, "chdir")
 	}
 
+	if g.o.Perm {
+		ops = append(ops, "setuser", "setuser", "setumask", "chmod", "chmod", "chmod", "chown", "chown", "lchown")
+	}
+
 	if g.o.Handles {
 		ops = append(ops, "open", "open", "read", "write", "write", "seek", "close", "readat", "writeat", "ftruncate", "fstat",
 			"freaddir", "freaddirnames", "fsync", "fchmod", "writestring")
@@ -197,9 +202,29 @@ func (g *gen) next() Call {
 		c.N = []int{0, 1, 3, 6, -1}[g.r.Intn(5)]
 	case "chmod", "fchmod":
 		c.Perm = []int{0o700, 0o444, 0o755, 0o644, 0o1777, 0o600}[g.r.Intn(6)]
+
+		if g.o.Perm {
+			// any permission triple per class, sometimes with sticky / set-gid / set-uid
+			c.Perm = g.r.Intn(512)
+			if g.r.Intn(4) == 0 {
+				c.Perm |= []int{0o1000, 0o2000, 0o4000, 0o3000}[g.r.Intn(4)]
+			}
+		}
 	case "chown", "lchown":
 		c.Uid = []int{1001, -1, 0}[g.r.Intn(3)]
 		c.Gid = []int{1001, 1002, -1}[g.r.Intn(3)]
+
+		if g.o.Perm {
+			c.Uid = []int{1001, 1002, -1, 0}[g.r.Intn(4)]
+			c.Gid = []int{1001, 1002, -1, 0}[g.r.Intn(4)]
+		}
+	case "setuser":
+		c.P = Path{Parts: []string{}}
+		c.Uid = []int{1001, 1001, 1002, 0}[g.r.Intn(4)]
+		c.Gid = c.Uid
+	case "setumask":
+		c.P = Path{Parts: []string{}}
+		c.Perm = []int{0o022, 0o077, 0, 0o027, 0o777}[g.r.Intn(5)]
 	case "chtimes":
 		c.N = g.r.Intn(100)
 	case "createtemp", "mkdirtemp":
